@@ -28,7 +28,10 @@ RULE = ('configurations: every signed format (1,iw,fw) with iw+fw <= 8 in same-f
         'mixed-format multiplier triples; operand-source configurations: operand a, operand b or both driven directly by Constant blocks (every '
         'single-bit value incl. the most negative encoding, 0, -1, largest positive, one +- 1 lsb, random) for every format up to 5 bits (7 in '
         'thorough), (1,3,4), (1,7,8), (1,15,16) and four mixed multiplier triples, swept against the other operand; size class: formats of total width 257, 300, 512 and 1000 (same-format, all five blocks, and three '
-        'mixed multiplier triples), every wire width computed independently, boundary x boundary + random operands.  evaluations = block outputs judged.  Non-trivial: both operands non-zero; '
+        'mixed multiplier triples), every wire width computed independently, boundary x boundary + random operands; history class: ONE long-lived instance per '
+        'configuration (same-format small/wide/huge formats with all five blocks, mixed multiplier triples) driven with operand sequences that return to earlier pairs -- A,A; A,(0,y),A; A,(x,0),A; '
+        'A,(0,0),A; A,swap(A),A; A,pair sharing one operand,A; A,special value,A; A,B,A,B; zero,A,zero,A for every non-zero pair A of a small pool (0, +-1 lsb, most negative, +-one, 3 random) and a walk on the pool '
+        '-- judged by the same exact oracle (a stateless block answers the same whatever was applied before).  evaluations = block outputs judged.  Non-trivial: both operands non-zero; '
         'distinct by content (configuration, x, y); in the thorough tier only the cases whose content hash is 0 mod 16 are registered, so '
         'distinct_nontrivial is a lower bound there (keeps the merged set small)')
 SHARDS = {'quick': 1, 'thorough': 16}
@@ -377,6 +380,159 @@ class Stats(dict):
         return 0
 
 
+# --------------------------------------------------------------------------- history workloads (stateless blocks are history-independent)
+
+HISTORY_SHAPES = ('A_A', 'A_zero_a_A', 'A_zero_b_A', 'A_zero_both_A', 'A_swap_A', 'A_share_a_A', 'A_share_b_A', 'A_special_A', 'A_B_A_B',
+                  'zero_A_zero_A', 'pool_walk')
+
+
+def history_pool(w, fw, rnd):
+    """A SMALL pool per operand (so that returns to earlier values are frequent): zero, 1 lsb, -1 lsb (all ones), most negative, one / minus
+    one when the format has them, and random values."""
+    m = (1 << w) - 1
+    special = [0, 1 & m, m, 1 << (w - 1)]
+    if fw < w - 1:
+        special += [(1 << fw) & m, (-(1 << fw)) & m]
+    special = list(dict.fromkeys(special))
+    rand = []
+    for _ in range(20):
+        v = rnd.getrandbits(w)
+        if v and v not in special and v not in rand:
+            rand.append(v)
+        if len(rand) >= 3:
+            break
+    return special, rand
+
+
+def history_sequence(af, bf, rnd, nwalk):
+    """Yields (shape, x, y): operand sequences for ONE long-lived instance that keep returning to earlier pairs."""
+    wa, wb = sum(af), sum(bf)
+    sa, ra = history_pool(wa, af[2], rnd)
+    sb, rb = history_pool(wb, bf[2], rnd)
+    pa, pb = sa + ra, sb + rb
+    nza, nzb = [v for v in pa if v], [v for v in pb if v]
+    mb, ma = (1 << wb) - 1, (1 << wa) - 1
+    for x in nza:
+        for y in nzb:
+            A = (x, y)
+            x2 = rnd.choice([v for v in nza if v != x] or nza)
+            y2 = rnd.choice([v for v in nzb if v != y] or nzb)
+            B = (x2, y2)
+            sp = (rnd.choice(sa), rnd.choice(sb))
+            for shape, seq in (('A_A', (A, A)),
+                               ('A_zero_a_A', (A, (0, y), A)),
+                               ('A_zero_b_A', (A, (x, 0), A)),
+                               ('A_zero_both_A', (A, (0, 0), A)),
+                               ('A_swap_A', (A, (y & ma, x & mb), A)),
+                               ('A_share_a_A', (A, (x, y2), A)),
+                               ('A_share_b_A', (A, (x2, y), A)),
+                               ('A_special_A', (A, sp, A)),
+                               ('A_B_A_B', (A, B, A, B)),
+                               ('zero_A_zero_A', ((0, y2), A, (x2, 0), A))):
+                for q in seq:
+                    yield shape, q[0], q[1]
+    # a walk on the small pool: each step changes one operand, both, or none
+    x, y = rnd.choice(pa), rnd.choice(pb)
+    for _ in range(nwalk):
+        r = rnd.random()
+        if r < 0.35:
+            x = rnd.choice(pa)
+        elif r < 0.7:
+            y = rnd.choice(pb)
+        elif r < 0.9:
+            x, y = rnd.choice(pa), rnd.choice(pb)
+        yield 'pool_walk', x, y
+
+
+def history_configs(tier, seed):
+    rnd = rng(seed, 'C14', 'history_configs')
+    out = [(f, f, f) for f in small_formats(8) if sum(f) >= 2 and (tier != 'quick' or sum(f) in (2, 3, 4, 6, 8, 9) or f[1] == f[2])]
+    out += [(f, f, f) for f in WIDE + HUGE[:2]]
+    out += [((1, 0, 15), (1, 0, 15), (1, 15, 16)), ((1, 7, 8), (1, 7, 8), (1, 15, 16)), ((1, 3, 4), (1, 7, 8), (1, 11, 12)), ((1, 15, 16), (1, 15, 16), (1, 7, 8)),
+            ((1, 1, 2), (1, 2, 1), (1, 2, 2)), ((1, 0, 3), (1, 3, 0), (1, 3, 3)), ((1, 128, 128), (1, 0, 256), (1, 128, 128))]
+    pool = small_formats(5) + WIDE
+    n = 0
+    while n < (10 if tier == 'quick' else 120):
+        af, bf, rf = rnd.choice(pool), rnd.choice(pool), rnd.choice(pool)
+        if af == bf == rf or af[2] + bf[2] - rf[2] < 0:
+            continue
+        out.append((af, bf, rf))
+        n += 1
+    return out
+
+
+def history_run(run, tier, seed, shard, stats, per_class, deadline):
+    """ONE rig per configuration, never rebuilt; every step judged by the same exact oracle as the sweeps.  A block that is a pure function of
+    its operands answers the same whatever was applied before; the violation carries the whole operand history since the rig was built."""
+    i, nsh = shard if shard else (0, 1)
+    shapes = Stats()
+    returns = Stats()
+    for k, (af, bf, rf) in enumerate(history_configs(tier, seed)):
+        if run.too_many:
+            break
+        if k % nsh != i:
+            continue
+        if time.time() > deadline:
+            run.inconclusive.append('watchdog hit before history configuration %r' % ((af, bf, rf),))
+            break
+        cc = config_class(af, bf, rf)
+        try:
+            R = Rig(af, bf, rf)
+        except Exception as e:
+            run.violation('fxp_build_raises', dict(config_class=cc, relation='raises:' + type(e).__name__), dict(kind='build', af=af, bf=bf, rf=rf, flags=(1, 1, 1, 1)),
+                          observed=repr(e)[:200], what='blocks for af=%r bf=%r rf=%r do not build: %r' % (af, bf, rf, e))
+            continue
+        per_class['history_configs_' + cc] += 1
+        rnd = rng(seed, 'C14', 'history', af, bf, rf, shard)
+        hist = []
+        seen = set()
+        prev = None
+        e0 = run.evaluations
+        for shape, x, y in history_sequence(af, bf, rnd, 150 if tier == 'quick' else 1500):
+            hist.append((x, y))
+            try:
+                out = R.step(x, y)
+            except Exception as e:
+                run.violation('fxp_sim_raises', dict(config_class=cc, relation='raises:' + type(e).__name__, workload='history'),
+                              dict(kind='history', af=af, bf=bf, rf=rf, seq=[[hex(a), hex(b)] for a, b in hist[-HISTORY_KEEP:]]),
+                              observed=repr(e)[:200], what='propagateAll raises for af=%r bf=%r rf=%r: %r' % (af, bf, rf, e))
+                break
+            n, viols = judge(af, bf, rf, x, y, out, stats)
+            run.ev(n)
+            shapes[shape] += 1
+            returned = (x, y) in seen
+            if returned:
+                returns['step_returns_to_an_earlier_pair'] += 1
+                if x and y:
+                    returns['step_returns_to_an_earlier_nonzero_pair'] += 1
+                    if prev is not None and not (prev[0] and prev[1]):
+                        returns['nonzero_pair_repeated_right_after_a_zero_operand'] += 1
+            if prev == (x, y):
+                returns['step_repeats_the_previous_pair'] += 1
+            elif prev is not None and (prev[0] == x or prev[1] == y):
+                returns['step_shares_one_operand_with_the_previous_pair'] += 1
+            seen.add((x, y))
+            prev = (x, y)
+            if x and y and len(hist) >= 2:
+                run.nt(hash(('history', af, bf, rf, len(hist), x >> 60, x & M60, y >> 60, y & M60)))
+            if viols:
+                for v in viols:
+                    v['fields'] = dict(v['fields'], workload='history', shape=shape,
+                                       pair_applied_before='yes' if returned else 'no')
+                    v['what'] += ' -- step %d of a history workload on one instance (%s); previous pairs: %s' % (
+                        len(hist) - 1, shape, ' '.join('(%#x,%#x)' % q for q in hist[-4:-1]))
+                report(run, dict(kind='history', af=af, bf=bf, rf=rf, seq=[[hex(a), hex(b)] for a, b in hist[-HISTORY_KEEP:]]), viols)
+                if run.too_many:
+                    break
+        per_class['history_evaluations_' + cc] += run.evaluations - e0
+    run.extra['history_steps_per_shape'] = dict(shapes)
+    run.extra['history_step_classes'] = dict(returns)
+
+
+HISTORY_KEEP = 64     # pairs of operand history stored with a violation (the rig is replayed from a fresh build over them)
+
+
+
 NT_SUBSAMPLE = 16    # thorough tier: only cases with content hash = 0 mod 16 are registered as distinct non-trivial (lower bound)
 PER_MECHANISM = 3
 M60 = (1 << 60) - 1
@@ -403,6 +559,9 @@ def run_check(run, tier, seed, shard):
                'result formats with more fraction bits than fa+fb (low < 0) are refused by the constructor and counted as refused')
     run.assume('output wires: Add/Sub/Mult assert r.getWidth() == sum(rf), so only the flag wires (gt, eq, lt, sign) can be wider than '
                'their natural width; a wider flag wire must read the zero-extended 0/1')
+    run.assume('history: the blocks are combinational, so the outputs after propagateAll() are a function of the operand values applied in that step only; '
+               'history workloads keep ONE instance alive and return to earlier operand pairs (directly, after a zero operand, after a swap, after a pair '
+               'sharing one operand, after a special value); the oracle is the same exact integer arithmetic')
     run.assume('composition: a block computes a function of the values on its ports; which scope the operand wires were created in and what their '
                'local names are must not matter; the same wire on both ports means b = a')
     cfgs = configs(tier, seed)
@@ -471,6 +630,7 @@ def run_check(run, tier, seed, shard):
         per_class['evaluations_scope_' + scope] += run.evaluations - e0
         if cc == 'same_format' and flags == (1, 1, 1, 1):
             formats_done['%d.%d.%d' % af] += npairs
+    history_run(run, tier, seed, shard, stats, per_class, deadline)
     run.extra['configurations'] = ncfg
     run.extra['per_config_class'] = dict(per_class)
     run.extra['judged_per_block'] = dict(stats)
@@ -492,6 +652,15 @@ def _floors(run, stats):
     for k in ('mult', 'add', 'sub', 'sign', 'cmp'):
         if stats[k] == 0:
             run.inconclusive.append('deciding monitor never reached: %s' % k)
+    sh = run.extra.get('history_steps_per_shape', {})
+    for k in HISTORY_SHAPES:
+        if not sh.get(k):
+            run.inconclusive.append('history workload shape never exercised: %s' % k)
+    hc = run.extra.get('history_step_classes', {})
+    for k in ('step_returns_to_an_earlier_nonzero_pair', 'nonzero_pair_repeated_right_after_a_zero_operand', 'step_repeats_the_previous_pair',
+              'step_shares_one_operand_with_the_previous_pair'):
+        if not hc.get(k):
+            run.inconclusive.append('history step class never observed: %s' % k)
 
 
 def replay(run, case):
@@ -507,6 +676,20 @@ def replay(run, case):
             print('replay: build raises %r' % (e,))
             print('VIOLATION property=%s replay=%s' % (run.prop, 'replayed'))
             return 1
+    if c.get('kind') == 'history':
+        R = Rig(af, bf, rf, flags)
+        rel = []
+        for j, (x, y) in enumerate(c['seq']):
+            x, y = int(x, 16), int(y, 16)
+            out = R.step(x, y)
+            n, viols = judge(af, bf, rf, x, y, out, Stats(), flags)
+            print('replay history step %d af=%r bf=%r rf=%r a=%#x b=%#x ->' % (j, af, bf, rf, x, y), out)
+            for v in viols:
+                print('  ', v['key'], v['what'])
+            rel += viols
+        if rel:
+            print('VIOLATION property=%s replay=%s' % (run.prop, 'replayed'))
+        return 1 if rel else 0
     x, y = c['x'], c['y']
     x = int(x, 16) if isinstance(x, str) else x
     y = int(y, 16) if isinstance(y, str) else y
